@@ -3,7 +3,7 @@
    and goes quiet, sleeps, and returns at the cancellation. *)
 From Coq Require Import List Bool NArith Lia ZifyN ZifyNat ZifyBool.
 Import ListNotations.
-From Setec Require Import Base.SMap Server.KV Server.KVProofs Server.Backup.
+From Setec Require Import Base.SMap Acl.Glob Server.KV Server.KVProofs Server.DB Server.Backup.
 Open Scope N_scope.
 
 (* ---- the generation counter ---- *)
@@ -556,4 +556,36 @@ Proof.
   destruct (i_up it) as [a|] eqn:Eu.
   - rewrite (Hok a eq_refl). destruct (Hs a eq_refl) as (Hg & _). exact Hg.
   - symmetry. apply Hn. reflexivity.
+Qed.
+
+(* ---- the first round, in every lifetime: the loop's "nothing uploaded yet" differs from every
+   generation a just-opened database reports - whether db.Open created the file or found it
+   (a restart with an existing database) - and from every later generation; so the task as
+   started by a process uploads at its first round even when nothing is written in this
+   lifetime ---- *)
+Lemma open_gen_is_db_open (V : Type) (k : kvs V) :
+  gen (db_open k) = open_gen /\ gen (db_create V) = open_gen.
+Proof. split; reflexivity. Qed.
+
+Lemma gen_at_from_open ws r t : gen_at ws r t = open_gen + r + count_le t ws.
+Proof. reflexivity. Qed.
+
+Theorem first_round_uploads tl :
+  (forall (V : Type) (k : kvs V), gen (db_open k) <> no_upload_yet /\ gen (db_create V) <> no_upload_yet)
+  /\ (forall r t, gen_at (ok_writes tl) r t <> no_upload_yet)
+  /\ (forall its x, backup_run tl = Some (its, x) ->
+       exists it rest a, its = it :: rest /\ i_t it = 0 /\ i_up it = Some a
+                         /\ a_t a = 0 /\ a_gen a = open_gen + count_le 0 (ok_writes tl)).
+Proof.
+  split; [|split].
+  - intros V k. unfold no_upload_yet. cbn. split; discriminate.
+  - intros r t. pose proof (gen_at_pos (ok_writes tl) r t). unfold no_upload_yet. lia.
+  - intros its x H. destruct (run_first_upload _ _ _ H) as (it & rest & a & -> & Ht & Hu).
+    exists it, rest, a. repeat split; auto.
+    + destruct (run_change_driven _ _ _ H [] it rest eq_refl) as [_ Hs].
+      destruct (Hs a Hu) as (_ & Hat & _). rewrite Hat. exact Ht.
+    + destruct (run_change_driven _ _ _ H [] it rest eq_refl) as [_ Hs].
+      destruct (Hs a Hu) as (Hg & _). rewrite Hg.
+      destruct (loop_head _ _ _ _ _ _ _ _ _ _ H) as (_ & Hgen & _). rewrite Hgen.
+      unfold gen_at, open_gen. lia.
 Qed.
